@@ -54,6 +54,7 @@ def rbytes(rng, n):
 
 def gen_script(rng, mi, ms, lim):
     k = rng.choice(('flood', 'copy', 'concat_loop', 'rec_call', 'mutual',
+                    'rec_ctx', 'rec_ctx', 'rec_ctx_eval',
                     'self_eval', 'rec_if', 'rec_try', 'rec_loop', 'nest_if',
                     'nest_try', 'random', 'shake', 'mult', 'not', 'trunc',
                     'push2_past', 'raw', 'loop_count', 'reverse_swap',
@@ -74,6 +75,30 @@ def gen_script(rng, mi, ms, lim):
         body = O('POP0') + O('DUP') + O('CONCAT') + O('TRUE')
         return k, isa.push(rbytes(rng, rng.choice((1, 3)))) + O('TRUE') \
             + isa.LOOP(body)
+    if k in ('rec_ctx', 'rec_ctx_eval'):
+        # recursion whose recursive step sits inside a random stack of
+        # contexts: every clause kind must carry the call count
+        step = isa.CALL(0) if k == 'rec_ctx' else O('DUP') + O('EVAL')
+        for _ in range(rng.randrange(1, 4)):
+            c = rng.choice(('if', 'then', 'else', 'try', 'except', 'loop1'))
+            if c == 'if':
+                step = O('TRUE') + isa.IF(step)
+            elif c == 'then':
+                step = O('TRUE') + isa.IF_ELSE(step, b'')
+            elif c == 'else':
+                step = O('FALSE') + isa.IF_ELSE(b'', step)
+            elif c == 'try':
+                step = isa.TRY(step, rng.choice((b'', O('TRUE') + O('POP0'))))
+            elif c == 'except':
+                step = isa.TRY(O('FALSE') + O('VERIFY'), step)
+            else:
+                step = O('TRUE') + isa.LOOP(O('POP0') + step + O('FALSE')) \
+                    + O('POP0')
+        if k == 'rec_ctx':
+            return k, isa.DEF(0, step) + isa.CALL(0)
+        if len(step) > ms:
+            return k, isa.DEF(0, step) + isa.CALL(0)
+        return k, isa.push(step) + step
     if k == 'rec_call':
         return k, isa.DEF(0, rng.choice((b'', O('TRUE'))) + isa.CALL(0)) \
             + isa.CALL(0)
